@@ -1135,6 +1135,79 @@ func (h *supH) directedReplicatedDependent(emit func(string)) {
 	}
 }
 
+// directedRestartNotRunning: a restart request on a process that is registered but has no command at
+// the moment — it waits for a dependency, or it sits in the back-off before a relaunch. The instance
+// that was replaced must not launch anything later (when the dependency ends / the back-off elapses).
+func (h *supH) directedRestartNotRunning(emit func(string)) {
+	for _, when := range []string{"pending", "backoff"} {
+		emit("sup coarse 0")
+		if when == "pending" {
+			emit("proc d no 0 - 0 0 0 -")
+			emit("proc a no 0 - 0 0 0 d:c")
+			emit("deps a d:c")
+		} else {
+			emit("proc d no 0 - 0 0 0 -")
+			emit("proc a always 0 - 0 0 0 -")
+		}
+		emit("init")
+		emit("s call 0 run")
+		h.drain(emit)
+		if when == "backoff" {
+			// a's command exits: the goroutine decides to restart and parks in the back-off
+			emit("s exit a 1")
+			h.drainExcept(emit, "backoff")
+		}
+		emit("s call 1 restart a")
+		h.drainExcept(emit, "backoff")
+		h.drain(emit)
+		emit("s exit d 0")
+		h.drain(emit)
+		emit("s call 2 state a")
+		h.drain(emit)
+		emit("s call 9 shutdown")
+		h.drain(emit)
+		for i := 0; i < 8 && !h.dead; i++ {
+			al := h.aliveNames()
+			if len(al) == 0 {
+				break
+			}
+			emit(fmt.Sprintf("s exit %s 0", al[0]))
+			h.drain(emit)
+		}
+		if len(h.aliveNames()) == 0 && len(h.enabledKeys()) == 0 {
+			emit("end quiescent")
+		} else {
+			emit("end limit")
+		}
+	}
+}
+
+// drainExcept runs every enabled thread except those parked at the given label
+func (h *supH) drainExcept(emit func(string), label string) {
+	for i := 0; i < 400 && !h.dead; i++ {
+		ts, keys := h.threadKeys()
+		en := map[*verif.Thread]bool{}
+		for _, t := range verif.S.Enabled() {
+			en[t] = true
+		}
+		pick := ""
+		cand := []string{}
+		for j, t := range ts {
+			if en[t] && t.Label != label {
+				cand = append(cand, keys[j])
+			}
+		}
+		sort.Strings(cand)
+		if len(cand) > 0 {
+			pick = cand[0]
+		}
+		if pick == "" {
+			return
+		}
+		emit("s run " + pick)
+	}
+}
+
 // directedManual: start / stop / restart requests on a running, a finished and an unknown process,
 // for a plain process and for a replica of a replicated one (name differs from the replica name).
 func (h *supH) directedManual(emit func(string)) {
@@ -1311,6 +1384,7 @@ func (h *supH) Gen(r *rand.Rand, tier string, emit func(string)) {
 	h.directedRestartedDependency(emit)
 	h.directedLateLookup(emit)
 	h.directedReplicatedDependent(emit)
+	h.directedRestartNotRunning(emit)
 	h.directedExit(emit)
 	h.directedStopThenShutdown(emit)
 	scen, maxProcs, maxSteps := 120, 4, 120
